@@ -242,6 +242,32 @@ void gen_foreign(Plan& p, Rng& r)
     }
 }
 
+void gen_corruptgrid(Plan& p, Rng& r, uint64_t index)
+{
+    // C05, systematic part: (schema, blob kind, damage mode) stratified by the run index
+    p.cfg.on_disk = true;
+    p.cfg.checks = CK_FOREIGN;
+    p.cfg.schema = (int)(index % 18);
+    p.cfg.table_api = p.cfg.schema >= 11;
+    p.cfg.gf.rich = true;
+    p.cfg.gf.long_labels = false;
+    p.cfg.gf.many_slots = false;
+    p.cfg.gf.odd_grids = false;
+    p.cfg.gf.no_path = false;
+    p.cfg.gf.big = false;
+    p.steps.push_back(mk("create_track", r, 0, 1 + (int)r.below(2)));
+    if (p.cfg.schema >= 11 && r.chance(1, 2))
+        p.steps.push_back(mk("f_write", r, 1, 1));
+    uint64_t k = index / 18;
+    for (int i = 0; i < 3; ++i)
+    {
+        Step s = mk("f_grid", r, 3, 1);
+        s.a[1] = (int64_t)((k + (uint64_t)i) % 6);
+        s.a[2] = (int64_t)((k / 6 + (uint64_t)i * 2) % 5);
+        p.steps.push_back(s);
+    }
+}
+
 void gen_foreign1(Plan& p, Rng& r)
 {
     // C02 converse on schema 1.x: the independent encoder writes, the public track API reads
@@ -485,6 +511,8 @@ Plan generate_plan(const std::string& profile_in, uint64_t seed, uint64_t index)
         gen_table(p, r, true);
     else if (profile == "foreign")
         gen_foreign(p, r);
+    else if (profile == "corruptgrid")
+        gen_corruptgrid(p, r, index);
     else if (profile == "foreign1")
         gen_foreign1(p, r);
     else if (profile == "corrupt")
